@@ -159,6 +159,31 @@ func (e *termEnv) int(t Term) (int64, bool) {
 		if b, ok := x.To.Underlying().(*types.Basic); ok && b.Info()&types.IsInteger != 0 {
 			return e.int(x.X)
 		}
+	case TBuiltin:
+		// the value of copy(dst, src) is min(len(dst), len(src)); min/max of integers
+		if x.Name == "copy" && len(x.Args) == 2 {
+			a, ok1 := e.int(TBuiltin{Name: "len", Args: []Term{x.Args[0]}, Epoch: x.Epoch})
+			b, ok2 := e.int(TBuiltin{Name: "len", Args: []Term{x.Args[1]}, Epoch: x.Epoch})
+			if ok1 && ok2 {
+				if b < a {
+					a = b
+				}
+				return a, true
+			}
+		}
+		if (x.Name == "min" || x.Name == "max") && len(x.Args) >= 1 {
+			best, ok := e.int(x.Args[0])
+			for _, a := range x.Args[1:] {
+				v, ok2 := e.int(a)
+				ok = ok && ok2
+				if (x.Name == "min" && v < best) || (x.Name == "max" && v > best) {
+					best = v
+				}
+			}
+			if ok {
+				return best, true
+			}
+		}
 	case TUn:
 		if v, ok := e.int(x.X); ok {
 			switch x.Op {
